@@ -49,6 +49,7 @@ class Cls:
     nested: list = field(default_factory=list)
     doc: str | None = None
     is_exception: bool = False
+    iattr_form: str = "plain"  # how the constructor assigns the instance attributes: plain | tuple (unpacking) | chain (a = b = v)
     order: tuple | None = None  # order of the member sections in the source (None: attributes, constructor, nested, methods)
 
 
@@ -173,12 +174,18 @@ def render_cls(c: Cls, indent: str = "") -> str:
         ctor = c.ctor or Fn("__init__", role="ctor")
         ctor.role = "ctor"
         lines = []
-        for a in c.iattrs:
-            s = f"self.{a.name}"
-            if a.anno:
-                s += f": {a.anno}"
-            s += f" = {a.value if a.value is not None else 'None'}"
-            lines.append(s)
+        if c.iattr_form == "tuple" and len(c.iattrs) >= 2:
+            # all instance attributes assigned by unpacking: self.a, self.b = 0, 1
+            lines.append(", ".join(f"self.{a.name}" for a in c.iattrs) + " = " + ", ".join(str(a.value if a.value is not None else "None") for a in c.iattrs))
+        elif c.iattr_form == "chain" and len(c.iattrs) >= 2:
+            lines.append(" = ".join(f"self.{a.name}" for a in c.iattrs) + f" = {c.iattrs[0].value if c.iattrs[0].value is not None else 'None'}")
+        else:
+            for a in c.iattrs:
+                s = f"self.{a.name}"
+                if a.anno:
+                    s += f": {a.anno}"
+                s += f" = {a.value if a.value is not None else 'None'}"
+                lines.append(s)
         saved = ctor.body
         if lines:
             ctor.body = "\n".join(lines)
@@ -479,6 +486,7 @@ class GenCfg:
     local_foreign_lower: bool = False  # ... and its lower-case class names (they change under naming conversion)
     private_bases: bool = False  # public classes derive from private classes of their module and override some methods
     private_name_clashes: bool = False  # private members named like re-exported private module-level declarations
+    iattr_forms: bool = True  # instance attributes assigned one by one, by tuple unpacking or by a chained assignment
     shuffle_members: bool = True  # the member sections of a class (attributes, constructor, nested classes, two halves of the methods) in any order
     shared_member_names: bool = False  # nested classes reuse member names of their outer class
     twins: bool = False  # modules with the same name (and some equal declaration names) in different packages
@@ -701,6 +709,8 @@ def _random_cls(rng, names, priv, public_classes, m, cfg, depth) -> Cls:
                     if f.role == "inst" and not any(x.name == f.name for x in inner.methods):
                         inner.methods.append(Fn(f.name, [Param(names.fresh("sh"), "int")], "int", role="inst"))
             c.nested.append(inner)
+    if cfg.iattr_forms:
+        c.iattr_form = rng.choice(["plain", "plain", "tuple", "chain"])
     if cfg.shuffle_members and rng.random() < 0.6:
         order = list(DEFAULT_MEMBER_ORDER)
         rng.shuffle(order)
